@@ -119,7 +119,15 @@ def run(pid, tier, seed, t0):
         info = {'name': st['name']}
         if st['kind'] == 'mc':
             cfg = st['cfg'][tier]
-            logp, s = core.mc(st['module'], cfg, tag + '.mc')
+            extra = ''
+            if st.get('simulate'):
+                # random walks over the specification's own alphabet (long behaviours; TLC simulation mode, seeded)
+                traces, depth = st['simulate'][tier]
+                wk = max(1, min(core.NCPU, traces))
+                extra = '-simulate num=%d -depth %d -seed %d' % (max(1, traces // wk), depth, seed)
+                logp, s = core.mc(st['module'], cfg, tag + '.mc', extra=extra, workers=wk)
+            else:
+                logp, s = core.mc(st['module'], cfg, tag + '.mc')
             if st.get('tree'):
                 nedges, n = core.dump_tree_cases(logp, st['comp'], st['name'] + '-', cases,
                                                  per_episode=st.get('per_episode', 3000), extra=st.get('extra'))
@@ -133,7 +141,7 @@ def run(pid, tier, seed, t0):
             cov['transitions'] += s['generated']
             info.update({'model': st['module'], 'cfg': cfg, 'states': s['distinct'], 'transitions': s['generated'],
                          'depth': s.get('depth'), 'tlc_s': s['wall_s'], 'invariants': st.get('invariants', []),
-                         'exhaustive': True})
+                         'exhaustive': not st.get('simulate'), 'mode': 'simulation (random walks)' if st.get('simulate') else 'exhaustive'})
             core.log('%s: TLC %s/%s: %d states, %d transitions, %.0fs; %d replay cases'
                      % (pid, st['module'], cfg, s['distinct'], s['generated'], s['wall_s'], n))
             if st.get('model_only'):
